@@ -35,6 +35,7 @@ class Ctx:
         self.assumptions = []
         self.violations = []      # dicts: sig, what, replay
         self.known_hits = []
+        self.divergences = []     # model and code differ where the property does not decide (reported, never a violation)
         self.level = "model_checking"
         self._harness = None
         self._tlcn = 0
@@ -199,12 +200,19 @@ class Ctx:
         self.violations.append(dict(sig=sig, what=what, replay=path))
         return True
 
+    def divergence(self, sig, what):
+        """The code does something else than the model predicts, but nothing the property forbids.  Printed and recorded in the
+        evidence so that the model can be brought up to date; it never changes the verdict."""
+        if len(self.divergences) < 40:
+            self.divergences.append(dict(sig=sig, what=what[:600]))
+
     def finish(self):
         wall = time.time() - self.t0
         cov = dict(self.cov)
         if not cov["samples"]:
             cov["samples"] = ["(no sample recorded)"]
         cov["known_findings_hit"] = [k["key"] for k in self.known_hits]
+        cov["model_divergences_without_property_violation"] = self.divergences
         cov.update(self.notes)
         ev = dict(property_id=self.prop, tier=self.tier, seed=self.seed, level=self.level, coverage=cov,
                   assumptions=self.assumptions, wall_s=round(wall, 2), violations=len(self.violations))
@@ -214,6 +222,11 @@ class Ctx:
         json.dump(ev, open(os.path.join(edir, self.prop + ".json"), "w"), indent=1, default=str)
         for k in self.known_hits:
             print("KNOWN-FINDING: property=%s %s" % (self.prop, k["what"]))
+        shown = set()
+        for dv in self.divergences:
+            if dv["sig"] not in shown and len(shown) < 8:
+                shown.add(dv["sig"])
+                print("MODEL-DIVERGENCE (no property violated) property=%s %s :: %s" % (self.prop, dv["sig"], dv["what"][:300]))
         seen = set()
         for v in self.violations:
             if v["sig"] in seen:
